@@ -80,10 +80,13 @@ def all_cases(ctx):
     for prim in ("createatomic", "copyatomic", "replaceatomic"):
         c = mk(prim, "present", "empty", "small", "explicit", seed=s)
         extra.append(c)
+    # the explicitly given temp dir is on another file system: the rename fails, the operation fails
+    extra.append(mk("createatomic", "present", "small", "small", "explicitx", seed=s))
+    extra.append(mk("replaceatomic", "absent", "small", "big", "explicitx", seed=s))
     for prim in ("createatomic", "writefile", "copyatomic"):
         extra.append(mk(prim, "nodir", "small", "small", seed=s))     # the operation fails: nothing may appear
     if not os.access("/dev/shm", os.W_OK):
-        extra = [c for c in extra if c["layout"] != "xdev"]
+        extra = [c for c in extra if c["layout"] not in ("xdev", "explicitx")]
     thorough += extra
     # quick: every single-file primitive with every destination state, the size pair chosen by the seed (each
     # primitive meets each size class once), symlink and unpack with absent / present, three of the extras
